@@ -14,7 +14,7 @@ RULE = ("stereo-valid StereoMolGraphs: stars of every coordination class with EV
         "tetrahedral with lone pair 12, square planar 24, trigonal bipyramidal 240, octahedral 1440) in two identifier pools "
         "(1..n; scattered positive ids, permuted insertion order), two-unit graphs (two tetrahedral centres, ring centres), isolated "
         "chains of two / three directly bonded coordination centres (every class pair, the partner at every descriptor position, "
-        "every parity, four atom orders), a coordination centre with a tetrahedral ligand atom, E/Z double bonds with generate_bond_orders=True, organic molecules imported from RDKit (all stereoisomers): "
+        "every parity, four atom orders), a coordination centre with a tetrahedral ligand atom, E/Z double bonds with generate_bond_orders=True, organic molecules and delocalised ions imported from RDKit (all stereoisomers): "
         "RDMol2StereoMolGraph(use_atom_map_number=True)(g._to_rdmol()[0]) has the same atoms, elements and bonds and, for every atom "
         "centred descriptor, a spatially identical descriptor of the same class on the same atom (E/Z descriptors too when bond orders "
         "are regenerated); the export does not change the exported graph.  distinct = graphs round-tripped")
@@ -103,7 +103,7 @@ def items(tier, seed):
     for i in range(len(BONDED)):
         out.append({"part": "bonded-centres", "idx": i, "tier": tier})
     out.append({"part": "ez", "tier": tier})
-    for i in range(len(R.organics())):
+    for i in range(len(R.organics()) + len(R.ions())):
         out.append({"part": "organic", "idx": i, "tier": tier})
     return out
 
@@ -323,7 +323,7 @@ def run_item(item):
     from rdkit import Chem
     from stereomolgraph.rdmol2graph import RDMol2StereoMolGraph
 
-    smi = R.organics()[item["idx"]]
+    smi = (R.organics() + R.ions())[item["idx"]]
     for can, iso in R.stereoisomers(smi).items():
         mol = Chem.AddHs(iso)
         for a in mol.GetAtoms():
